@@ -233,6 +233,10 @@ func StrictIntRightBitshift[T StrictInt](left T, right Value) (T, Value) {
 				return left >> rSmall, Undefined
 			}
 
+			if r.ToGoBigInt().Sign() > 0 {
+				// a right shift by more than any word: only the sign is left
+				return left >> 64, Undefined
+			}
 			return 0, Undefined
 		default:
 			return 0, Ref(NewBitshiftOperandError(right))
@@ -310,6 +314,10 @@ func StrictIntLeftBitshift[T StrictInt](left T, right Value) (T, Value) {
 				return left << rSmall, Undefined
 			}
 
+			if r.ToGoBigInt().Sign() < 0 {
+				// a right shift by more than any word: only the sign is left
+				return left >> 64, Undefined
+			}
 			return 0, Undefined
 		default:
 			return 0, Ref(NewBitshiftOperandError(right))
